@@ -34,6 +34,7 @@ import (
 
 	"verifh/ev"
 	"verifh/gen"
+	"verifh/refamf"
 	"verifh/refcrypto"
 	"verifh/refper"
 )
@@ -57,7 +58,7 @@ type c20Case struct {
 	Scripts [][]c20Op `json:"scripts"`
 }
 
-var c20Kinds = []string{"ngap-enc", "ngap-dec", "nas-plain", "protect", "unprotect", "encrypt", "mac", "derive", "ngap-enc-big", "ngap-dec-big", "alg-direct", "ngap-dec-lists"}
+var c20Kinds = []string{"ngap-enc", "ngap-dec", "nas-plain", "protect", "unprotect", "encrypt", "mac", "derive", "ngap-enc-big", "ngap-dec-big", "alg-direct", "ngap-dec-lists", "aes-burst", "ngap-dec-later"}
 
 func genC20(t *rapid.T) c20Case {
 	g := rapid.SampledFrom([]int{2, 2, 4, 8, 8, 16, 64}).Draw(t, "goroutines")
@@ -75,7 +76,7 @@ func genC20(t *rapid.T) c20Case {
 	if rapid.IntRange(0, 5).Draw(t, "storm") == 0 {
 		// every goroutine does the same kind of work for the whole case (64 decoders of list-heavy messages at once,
 		// 64 direct cipher calls at once, ...): load that adds up across goroutines
-		storm = rapid.SampledFrom([]string{"ngap-dec-lists", "ngap-dec-lists", "alg-direct", "ngap-dec", "ngap-enc"}).Draw(t, "storm_kind")
+		storm = rapid.SampledFrom([]string{"ngap-dec-lists", "ngap-dec-lists", "alg-direct", "ngap-dec", "ngap-enc", "aes-burst", "aes-burst", "derive", "ngap-dec-later", "ngap-dec-later"}).Draw(t, "storm_kind")
 		g = 64
 		maxOps = 6
 	}
@@ -180,11 +181,21 @@ func runOp(u *ueState, op c20Op) (res string) {
 	case "ngap-enc":
 		b, err := ngap.Encoder(pduFor(op.Seed))
 		return fmt.Sprintf("%x|%v", b, err)
-	case "ngap-dec":
+	case "ngap-dec", "ngap-dec-later":
 		pdu := pduFor(op.Seed)
 		rb, _, err := refper.Encode(pdu, gen.PDUTag)
 		if err != nil || len(rb) >= 16384 {
 			return "skip"
+		}
+		if (op.Seed%5 == 1 || op.Kind == "ngap-dec-later") && len(rb) < 12000 {
+			// a peer of a later release: one or two information elements with identifiers this release does not know (and
+			// that no other message of the run carries) behind the known ones
+			if ext, err := refamf.WithLaterIEs(rb, 1+int(op.Seed>>8%2), int(op.Seed>>16%1000000)); err == nil {
+				if _, derr := ngap.Decoder(ext); derr != nil {
+					return "decerr(later-release IEs):" + derr.Error()
+				}
+				return "ok(later-release IEs):" + hex.EncodeToString(rb[:min(len(rb), 16)])
+			}
 		}
 		d, derr := ngap.Decoder(append([]byte{}, rb...))
 		if derr != nil {
@@ -444,9 +455,35 @@ func runOp(u *ueState, op c20Op) (res string) {
 			}
 		}
 		return "ok"
+	case "aes-burst":
+		// many short 128-NEA2 / 128-NIA2 operations in a row, every one under a key of its own (what a gNB serving many UEs
+		// does): windows of a few instructions are only ever hit by volume
+		for i := 0; i < 48; i++ {
+			var k [16]byte
+			copy(k[:], r.bytes(16))
+			cnt, br, dir := uint32(r.next()), uint8(r.next()%32), uint8(r.next()%2)
+			msg := r.bytes(1 + int(r.next()%40))
+			if i%2 == 0 {
+				buf := append([]byte{}, msg...)
+				if err := security.NASEncrypt(2, k, cnt, br, dir, buf); err != nil || !bytes.Equal(buf, refcrypto.EEA2(k, cnt, uint32(br), uint32(dir), msg)) {
+					return fmt.Sprintf("WRONG-CIPHERTEXT NEA2 (burst, call %d) err=%v", i, err)
+				}
+			} else {
+				mac, err := security.NASMacCalculate(2, k, cnt, br, dir, msg)
+				want := refcrypto.EIA2(k, cnt, uint32(br), uint32(dir), msg)
+				if err != nil || !bytes.Equal(mac, want[:]) {
+					return fmt.Sprintf("WRONG-MAC NIA2 (burst, call %d) err=%v", i, err)
+				}
+			}
+		}
+		return "ok"
 	case "derive":
 		ue := tglib.NewRanUeContext(u.ue.Supi, 1, uint8(op.Alg), uint8(1+op.Seed%2))
 		subs := tglib.GetAuthSubscription(hex.EncodeToString(r.bytes(16)), hex.EncodeToString(r.bytes(16)), "")
+		if op.Seed%3 == 0 {
+			// the operator key given as OP (another one for every UE), no OPc
+			subs = tglib.GetAuthSubscription(hex.EncodeToString(r.bytes(16)), "", hex.EncodeToString(r.bytes(16)))
+		}
 		var autn [16]byte
 		copy(autn[:], r.bytes(16))
 		res := ue.DeriveRESstarAndSetKey(subs, autn, r.bytes(16), "5G:mnc093.mcc208.3gppnetwork.org", "93", "208")
